@@ -1,5 +1,5 @@
 # C13 — URI
-SRC = ["source/uri.c", "source/byte_buf.c", "source/array_list.c", "source/common.c", "source/error.c", "source/math.c", "source/string.c"]
+SRC = ["source/byte_buf.c", "source/array_list.c", "source/common.c", "source/error.c", "source/math.c", "source/string.c"]
 STUBS = ["base.c", "alloc_direct.c", "memchr.c", "mem0.c"]
 
 
@@ -21,12 +21,36 @@ def spec(tier):
     for n in ([0, 1, 3, 5] if quick else range(0, 11)):
         jobs.append(dict(unit=mkunit(units, N=n), entry="h_query_iteration", unwind=n + 5, bounds="query string of %d arbitrary bytes" % n,
                          what="iteration yields each non-empty pair once, in order, == list form == reference splitter"))
-    # NOTE: h_uri_parse_arbitrary / h_uri_compose_parse / h_uri_builder_parse (aws_uri_init_parse and the builder) are kept in
-    # h_uri.c but are NOT run: every instance, even a 2-byte URI, exhausts 12 GB in CBMC's propositional reduction
-    # (measured; cause not isolated). Clauses (a)/(b) of C13 are therefore not decided -- see DESIGN.md.
+    for n in ([0, 1, 2, 3, 5] if quick else range(0, 9)):
+        jobs.append(dict(unit=mkunit(units, N=n), entry="h_uri_parse_arbitrary", unwind=n + 4, unwind_is_property=True,
+                         bounds="URI text of %d arbitrary bytes" % n, what="parse of arbitrary text (state functions in sequence): memory-safe, views inside uri_str, failure leaves a zeroed object"))
+    shapes = [0x00, 0x80, 0x01, 0x08, 0x10, 0x04, 0x14, 0x0C, 0x1C, 0x1F, 0x3F, 0x5F, 0x0D, 0x16, 0x9C, 0x89, 0x47] if quick else [x for x in range(256)]
+    for sh in shapes:
+        if (sh & 32) and not (sh & 2):
+            continue
+        if (sh & 128) and (sh & 64):
+            continue
+        if sh in (0x14, 0x0C, 0x1C):  # builder with the widest ports (10 digits, concrete values), query string / path / both
+            for pv in ("4294967295", "1000000000"):
+                u = mkunit(units, SHAPE=sh, PD=10, PORTV='"%s"' % pv)
+                units[u]["havoc"] = ["s_init_from_uri_str"]
+                jobs.append(dict(unit=u, entry="h_uri_builder_parse", unwind=22, timeout=500 if quick else 1500,
+                                 bounds="shape 0x%02x, port %s (concrete, 10 digits), other characters symbolic" % (sh, pv),
+                                 what="builder with the widest port: assembled text parses back to the components (buffer sizing)"))
+        for pd in ((2, 10) if sh == 0x04 else (2,)):
+            u = mkunit(units, SHAPE=sh, PD=pd)
+            units[u]["havoc"] = ["s_init_from_uri_str"]
+            jobs.append(dict(unit=u, entry="h_uri_compose_parse", unwind=14 if pd == 2 else 22, timeout=600 if quick else 1500,
+                             bounds="shape 0x%02x (bits: scheme,user,port,path,query,password,ipv6,empty-host), %d port digits; all characters symbolic" % (sh, pd),
+                             what="parse(compose(components)) == components; views inside uri_str"))
+            if not (sh & 2) and sh != 0x80 and pd == 2:  # the builder has no user-info option; nothing to build for the empty shape
+              for ent in (("h_uri_builder_parse", "h_uri_builder_parse_query_list") if (sh & 16) else ("h_uri_builder_parse",)):
+                jobs.append(dict(unit=u, entry=ent, unwind=14 if pd == 2 else 22, timeout=500 if quick else 1500, backend="kissat" if pd == 10 else "minisat",
+                                 bounds="shape 0x%02x, %d port digits; query as %s" % (sh, pd, "key=value list" if ent.endswith("list") else "string"),
+                                 what="real builder assembles the text (its final dispatcher call cut), then parse == components"))
     meta = dict(functions_encoded=["all of source/uri.c"], bounds="component lengths fixed per shape (<= 3 chars each), port up to 10 digits, encoders up to 4/8 bytes, query up to 5/10 bytes",
                 stubs=["snprintf: decimal model for the single format \"%u\" (libc)", "base.c, alloc_direct.c, memchr.c, mem0.c"],
-                out=["NOT DECIDED: parse(compose(x)) and parse(builder(x)) component identity and views-inside-uri_str (aws_uri_init_parse does not fit in memory under CBMC)",
+                out=["the 12-line table dispatcher s_init_from_uri_str (replaced by explicit sequencing of the real state functions: > 7 GB otherwise)",
                      "inputs longer than the bounds"],
                 assumptions=["host characters exclude / ? @ : [ ] and NUL; user characters exclude / ? @ : and NUL"])
     return dict(units=units, jobs=jobs, meta=meta, max_parallel=8)
